@@ -916,6 +916,7 @@ def run(repo: Repo, ctx) -> None:
     _r10(repo, ctx)
     root_schema_rule(repo, ctx, 'C09.R11')
     _r12(repo, ctx)
+    _r13(repo, ctx)
 
 
 def _isa(repo: Repo, q: str) -> Set[str]:
@@ -1220,3 +1221,57 @@ def _r12(repo: Repo, ctx) -> None:
                f'is answered (and sent to the backend) while the compiler\'s '
                f'savepoint stack keeps its old shape', f.loc,
                sample=f'every normal exit passes self.{worker}(..)')
+
+
+
+def _r13(repo: Repo, ctx) -> None:
+    """C09.R13 a transaction-control unit that changed the compiler's
+    transaction / savepoint state is not cacheable.  The server keeps
+    cacheable units in its compiled-query cache and serves a later identical
+    statement from there without calling the compiler; for a statement whose
+    compilation *is* the state change (start / commit / rollback / declare /
+    release / rollback-to) that leaves the compiler's savepoint stack behind
+    the backend's.  Path fact per statement class: every path through
+    `_compile_ql_transaction` that calls a state-changing method passes
+    `cacheable = False` before the unit is built."""
+    from ..absint import Facts, must_pass
+    ctx.floor('C09.R13', 5)
+    f = repo.func('edb.server.compiler.compiler._compile_ql_transaction')
+    ctx.saw(f)
+    g = CFG(f.node)
+    MUT = {'start_tx', 'commit_tx', 'rollback_tx', 'declare_savepoint',
+           'release_savepoint', 'rollback_to_savepoint'}
+    qp = f.params()[1]
+    arms = []
+    for n in ast.walk(f.node):
+        if isinstance(n, ast.If) and isinstance(n.test, ast.Call) and norm(
+                n.test.func) == 'isinstance' and norm(
+                n.test.args[0]) == qp and not isinstance(
+                n.test.args[1], ast.Tuple):
+            arms.append((norm(n.test.args[1]).split('.')[-1], n))
+    if len(arms) < 5:
+        raise AnalysisError('C09.R13: statement-class arms of '
+                            '_compile_ql_transaction not found')
+    offs = [n.id for n in g.nodes if n.kind == 'stmt' and isinstance(
+        n.ast, ast.Assign) and norm(n.ast.targets[0]) == 'cacheable'
+        and norm(n.ast.value) == 'False']
+    rets = [n.id for n in g.nodes if n.kind == 'stmt' and isinstance(
+        n.ast, ast.Return)]
+    for cname, arm in arms:
+        muts = sorted({c.func.attr for st in arm.body for c in ast.walk(st)
+                       if isinstance(c, ast.Call) and isinstance(
+                           c.func, ast.Attribute) and c.func.attr in MUT})
+        if not muts:
+            continue
+        F = Facts({}, f.node)
+        F.inst[qp] = {cname}
+        ok = bool(offs) and must_pass(g, F, offs, exits=rets or None)
+        ctx.ob('C09.R13', f'_compile_ql_transaction:{cname}:not-cacheable',
+               ok, f'the {cname} arm changes the compiler state '
+               f'({", ".join(muts)}) but can build its unit with '
+               f'cacheable left True: a repeated identical statement is '
+               f'served from the server\'s compiled-query cache without '
+               f'reaching the compiler, whose savepoint stack then differs '
+               f'from the backend\'s',
+               f'{f.module.rel()}:{arm.lineno}',
+               sample=f'{muts} -> cacheable = False')
